@@ -210,6 +210,61 @@ func isParamOrItsCell(v ssa.Value, prm *ssa.Parameter) bool {
 	return len(sts) == 1 && sts[0] == ssa.Value(prm)
 }
 
+// runCompositeKeys: in the static parser, a string used as a map key (or looked up in a map) that is put together from
+// several variable parts has a constant separator between any two of them: `id + strconv.Itoa(seq)` gives the same
+// key for ("shape_1", 12) and ("shape_11", 2), so two different rows look like one.
+func runCompositeKeys(c *Ctx, rule string) {
+	p := c.P
+	b := newBinder(c)
+	b.catForm = true
+	n := 0
+	seen := map[ssa.Value]bool{}
+	for _, fn := range staticParseFns(c) {
+		for _, blk := range fn.Blocks {
+			for _, in := range blk.Instrs {
+				var key ssa.Value
+				switch x := in.(type) {
+				case *ssa.MapUpdate:
+					key = x.Key
+				case *ssa.Lookup:
+					if _, isMap := x.X.Type().Underlying().(*types.Map); isMap {
+						key = x.Index
+					}
+				}
+				if key == nil || seen[key] {
+					continue
+				}
+				if bt, ok := key.Type().Underlying().(*types.Basic); !ok || bt.Info()&types.IsString == 0 {
+					continue
+				}
+				seen[key] = true
+				parts, ok := b.catPartsTop(key, 0)
+				if !ok || len(parts) < 2 {
+					continue
+				}
+				n++
+				vars, adjacent := 0, false
+				prevVar := false
+				for _, pt := range parts {
+					isConst := strings.HasPrefix(pt, "const:")
+					if !isConst {
+						vars++
+						if prevVar {
+							adjacent = true
+						}
+					}
+					prevVar = !isConst
+				}
+				c.Check(!(vars >= 2 && adjacent), rule, shortName(fn), "composite key "+clip(strings.Join(parts, " + "), 80), p.ipos(in), "the variable parts of the key are separated by constant text", "the key is "+strings.Join(parts, " + ")+": two variable parts follow each other without a separator, so different pairs of values can give the same key (\"a\"+\"12\" and \"a1\"+\"2\"); which of the colliding rows is kept then depends on their order in the file")
+			}
+		}
+	}
+	c.Stats["composite string keys in the static parser"] = n
+	if n == 0 {
+		c.Proved(rule, "gtfs", "no composite string keys", "-", "no map of the static parser is keyed by a string built from several parts")
+	}
+}
+
 // emptinessGuarded: block b is dominated by cap(F)==0 / len(F)==0 / F==nil of the very field fa addresses.
 func emptinessGuarded(b *ssa.BasicBlock, fa *ssa.FieldAddr) bool {
 	want := canon(fa)
@@ -948,6 +1003,80 @@ func runWarningRules(c *Ctx) {
 			}
 		}
 		c.Check(len(probs) == 0, "G9", "csv", "the reused record never escapes uncopied", "-", "the slice returned by Read under ReuseRecord is kept only in row.cells; what leaves the package is a copy", strings.Join(dedup(probs), "; "))
+	}
+	// G9b: a slice that an exported method of the csv package hands out is not a buffer the package overwrites in place
+	// later: a field that is returned (or whose load is returned) is never assigned `append(field[:k], ...)` and is never
+	// the destination of a copy. (Warnings keep what RowContent returned; a recycled buffer shows them the cells of a
+	// later row.)
+	{
+		returned := map[string]string{} // "Type.field" -> accessor
+		fkey := func(fa *ssa.FieldAddr) string { return typeName(fa.X.Type()) + "." + fieldName(fa.X.Type(), fa.Field) }
+		for _, fn := range csvFns {
+			if fn.Object() == nil || !fn.Object().Exported() {
+				continue
+			}
+			for _, b := range fn.Blocks {
+				ret, ok := b.Instrs[len(b.Instrs)-1].(*ssa.Return)
+				if !ok {
+					continue
+				}
+				for _, r := range ret.Results {
+					if _, isSlice := r.Type().Underlying().(*types.Slice); !isSlice {
+						continue
+					}
+					for _, lf := range c.valueLeaves(r) {
+						if ld, ok := lf.(*ssa.UnOp); ok && ld.Op == token.MUL {
+							if fa, ok := ld.X.(*ssa.FieldAddr); ok {
+								returned[fkey(fa)] = shortName(fn)
+							}
+						}
+					}
+				}
+			}
+		}
+		var probs []string
+		fromField := func(v ssa.Value, key string) bool {
+			for i := 0; i < 4 && v != nil; i++ {
+				switch x := v.(type) {
+				case *ssa.Slice:
+					v = x.X
+					continue
+				case *ssa.UnOp:
+					if fa, ok := x.X.(*ssa.FieldAddr); ok && x.Op == token.MUL {
+						return fkey(fa) == key
+					}
+				}
+				return false
+			}
+			return false
+		}
+		for _, fn := range csvFns {
+			for _, b := range fn.Blocks {
+				for _, in := range b.Instrs {
+					switch x := in.(type) {
+					case *ssa.Store:
+						fa, ok := x.Addr.(*ssa.FieldAddr)
+						if !ok || returned[fkey(fa)] == "" {
+							continue
+						}
+						if call, isCall := x.Val.(*ssa.Call); isCall && isBuiltin(call, "append") {
+							if sl, isSl := call.Call.Args[0].(*ssa.Slice); isSl && sl.High != nil && fromField(sl, fkey(fa)) {
+								probs = append(probs, fmt.Sprintf("%s refills %s in place (%s) although %s hands that slice out: a caller that kept it sees the new contents", shortName(fn), fkey(fa), p.ipos(x), returned[fkey(fa)]))
+							}
+						}
+					case *ssa.Call:
+						if isBuiltin(x, "copy") {
+							for key, acc := range returned {
+								if fromField(x.Call.Args[0], key) {
+									probs = append(probs, fmt.Sprintf("%s copies into %s (%s) although %s hands that slice out", shortName(fn), key, p.ipos(x), acc))
+								}
+							}
+						}
+					}
+				}
+			}
+		}
+		c.Check(len(probs) == 0, "G9", "csv", "slices handed out are not recycled", "-", fmt.Sprintf("%d fields are returned by exported methods; none is refilled in place", len(returned)), strings.Join(dedup(probs), "; "))
 	}
 	// A9: NewStaticWarning's fields: each is what the File's exported accessor of the same name yields (called, or -- the
 	// accessors being plain getters -- the field they return), for the file handed in; Kind is the kind handed in
